@@ -173,3 +173,76 @@ pub proof fn lemma_round_carry(v: int)
     lemma_tod(t);
     assert((d + 1) * US_DAY() == d * US_DAY() + US_DAY()) by (nonlinear_arith);
 }
+
+// Rust's truncating remainder of i by one day
+pub open spec fn trem_day(i: int) -> int { if i >= 0 { i % US_DAY() } else { -((-i) % US_DAY()) } }
+pub proof fn lemma_time_add(t: int, i: int)
+    requires time_in_range(t)
+    ensures
+        -US_DAY() < trem_day(i) < US_DAY(),
+        t + trem_day(i) >= 0 ==> (t + trem_day(i)) % US_DAY() == (t + i) % US_DAY(),
+        t + trem_day(i) < 0 ==> t + trem_day(i) + US_DAY() == (t + i) % US_DAY(),
+{
+    let ir = trem_day(i);
+    // i == q * D + ir for some q
+    let q = if i >= 0 { i / US_DAY() } else { -((-i) / US_DAY()) };
+    assert(i == q * US_DAY() + ir);
+    lemma_mod_multiples_vanish(q, t + ir, US_DAY());
+    assert((t + i) % US_DAY() == (t + ir) % US_DAY()) by {
+        assert(t + i == US_DAY() * q + (t + ir)) by (nonlinear_arith) requires i == q * US_DAY() + ir;
+    }
+    if t + ir < 0 {
+        lemma_fundamental_div_mod_converse(t + ir, US_DAY(), -1, t + ir + US_DAY());
+    }
+}
+
+// adding whole days does not change the sub-second (or sub-day) part
+pub proof fn lemma_day_shift(x: int, t: int)
+    ensures
+        (x * US_DAY() + t) % US_SEC() == t % US_SEC(),
+        (x * US_DAY() + t) % US_DAY() == t % US_DAY(),
+        (x * US_DAY() + t) / US_DAY() == x + t / US_DAY(),
+{
+    assert(x * US_DAY() == (x * 86400) * US_SEC()) by (nonlinear_arith);
+    lemma_mod_multiples_vanish(x * 86400, t, US_SEC());
+    lemma_mod_multiples_vanish(x, t, US_DAY());
+    lemma_fundamental_div_mod_converse(x * US_DAY() + t, US_DAY(), x + t / US_DAY(), t % US_DAY());
+}
+
+pub proof fn lemma_div_step(y: int, k: int)
+    requires k > 0
+    ensures y / k == (y - 1) / k + (if y % k == 0 { 1int } else { 0int })
+{
+    let q = (y - 1) / k;
+    let r = (y - 1) % k;
+    lemma_fundamental_div_mod(y - 1, k);
+    if r + 1 == k {
+        assert(y == (q + 1) * k) by (nonlinear_arith) requires y - 1 == k * q + r, r + 1 == k;
+        lemma_fundamental_div_mod_converse(y, k, q + 1, 0);
+    } else {
+        assert(y == q * k + (r + 1)) by (nonlinear_arith) requires y - 1 == k * q + r;
+        lemma_fundamental_div_mod_converse(y, k, q, r + 1);
+    }
+}
+
+// Rust's truncating quotient by one day, and its relation to floor division
+pub open spec fn tquot_day(i: int) -> int { if i >= 0 { i / US_DAY() } else { -((-i) / US_DAY()) } }
+pub proof fn lemma_trunc_day(v: int)
+    ensures
+        v == tquot_day(v) * US_DAY() + trem_day(v),
+        -US_DAY() < trem_day(v) < US_DAY(),
+        v >= 0 ==> trem_day(v) >= 0,
+        v < 0 ==> trem_day(v) <= 0,
+        trem_day(v) < 0 ==> v / US_DAY() == tquot_day(v) - 1 && v % US_DAY() == trem_day(v) + US_DAY(),
+        trem_day(v) >= 0 ==> v / US_DAY() == tquot_day(v) && v % US_DAY() == trem_day(v),
+{
+    let q = tquot_day(v);
+    let r = trem_day(v);
+    assert(v == q * US_DAY() + r);
+    if r < 0 {
+        assert(v == (q - 1) * US_DAY() + (r + US_DAY())) by (nonlinear_arith) requires v == q * US_DAY() + r;
+        lemma_fundamental_div_mod_converse(v, US_DAY(), q - 1, r + US_DAY());
+    } else {
+        lemma_fundamental_div_mod_converse(v, US_DAY(), q, r);
+    }
+}
